@@ -4,28 +4,73 @@ import re
 from ..core import AnalysisError, anchor
 from .. import cfront
 from ..cfront import walk, strip, callee_name, call_args, render, line_of, is_assign, qtype
-from . import x1, x3, serial
+from . import x1, x3, serial, extents
 
 AX = ('x', 'y', 'z')
 
 
-def _wrap_loops(node):
-    """while (P.c OP box.c/2) P.c +-= box.c  ->  list of dicts"""
+def _named_values(fn):
+    """locals that only name a value or a place (never assigned again, one initialiser text): xmax = boxsize.x/2.,
+    p = &particles[i], boundary = r->boundary ... - conditions and updates are read with these names resolved."""
+    mutated = {render(e['inner'][0]) for e in walk(cfront.body(fn)) if is_assign(e)}
+    mutated |= {render(x['inner'][0]) for x in walk(cfront.body(fn)) if x.get('kind') == 'UnaryOperator' and x.get('opcode') in ('++', '--')}
+    lv = extents.loop_vars(fn)
+    seen = {}
+    for d in walk(cfront.body(fn)):
+        if d.get('kind') == 'VarDecl' and 'init' in d and d.get('name') not in lv:
+            init = [c for c in d.get('inner', []) if c.get('kind') not in ('FullComment',)]
+            if init:
+                seen.setdefault(d['name'], set()).add(render(init[-1]).replace(' ', ''))
+    return {k: next(iter(v)) for k, v in seen.items() if len(v) == 1 and k not in mutated}
+
+
+def _rs(node, L):
+    return extents.canon(extents.resolve(render(node), L))
+
+
+def _wrap_loops(node, L):
+    """while (P.c OP box.c/2) P.c +-= box.c  ->  list of dicts (names resolved, parentheses dropped)"""
     out = []
     for w in walk(node):
         if w.get('kind') != 'WhileStmt':
             continue
-        c = render(w['inner'][0]).replace(' ', '')
-        m = re.match(r'^\((.+?)\.([xyz])([<>])\(?(-?)\(?(\w+)\.([xyz])/2(?:\.0?)?\)*$', c)
+        c = _rs(w['inner'][0], L)
+        m = re.match(r'^(.+?)\.([xyz])([<>])(-?)(.+?)\.([xyz])/2(?:\.0?)?$', c)
         if not m:
             continue
         obj, comp, op, neg, box, bcomp = m.groups()
         ups = []
         for e in walk(w['inner'][1]):
             if is_assign(e):
-                ups.append((render(e['inner'][0]).replace(' ', ''), e['opcode'], render(e['inner'][1]).replace(' ', '')))
+                ups.append((_rs(e['inner'][0], L), e['opcode'], _rs(e['inner'][1], L)))
         out.append({'obj': obj, 'comp': comp, 'op': op, 'neg': bool(neg), 'box': box, 'bcomp': bcomp, 'ups': ups, 'line': line_of(w), 'cond': c})
     return out
+
+
+def _boundary_cases(fn, L):
+    """{REB_BOUNDARY_x: [statements]} of the dispatch on r->boundary, written as a switch or as an if / else-if chain"""
+    cases = {}
+    for sw in walk(cfront.body(fn)):
+        if sw.get('kind') == 'SwitchStmt' and _rs([c for c in sw['inner'] if c and c.get('kind')][0], L) == 'r.boundary':
+            cur = None
+            for st in sw['inner'][-1].get('inner', []):
+                node = st
+                while node.get('kind') in ('CaseStmt', 'DefaultStmt'):
+                    if node['kind'] == 'CaseStmt':
+                        for x in walk(node['inner'][0]):
+                            if x.get('kind') == 'DeclRefExpr':
+                                cur = x['referencedDecl']['name']
+                    else:
+                        cur = 'default'
+                    node = node['inner'][-1]
+                cases.setdefault(cur, []).append(node)
+            return cases
+    for i in walk(cfront.body(fn)):
+        if i.get('kind') == 'IfStmt':
+            m = re.match(r'^(?:r\.boundary==(REB_BOUNDARY_\w+)|(REB_BOUNDARY_\w+)==r\.boundary)$', _rs(i['inner'][0], L))
+            if m:
+                cases.setdefault(m.group(1) or m.group(2), []).append(i['inner'][1])
+    return cases
 
 
 def rule_wrap(ctx):
@@ -33,30 +78,13 @@ def rule_wrap(ctx):
     fn = tu.func('reb_boundary_check')
     n = 0
     samples = []
-    per_case = {}
-    for comp, case in x1.compounds_with_case(cfront.body(fn)):
-        pass
-    # walk the switch cases
-    sw = [s for s in walk(cfront.body(fn)) if s.get('kind') == 'SwitchStmt'][0]
-    body = sw['inner'][-1]
-    cur = None
-    cases = {}
-    for st in body.get('inner', []):
-        node = st
-        while node.get('kind') in ('CaseStmt', 'DefaultStmt'):
-            if node['kind'] == 'CaseStmt':
-                for x in walk(node['inner'][0]):
-                    if x.get('kind') == 'DeclRefExpr':
-                        cur = x['referencedDecl']['name']
-            else:
-                cur = 'default'
-            node = node['inner'][-1]
-        cases.setdefault(cur, []).append(node)
+    NV = _named_values(fn)
+    cases = _boundary_cases(fn, NV)
     for case in ('REB_BOUNDARY_PERIODIC', 'REB_BOUNDARY_SHEAR'):
         anchor(case in cases, 'reb_boundary_check case ' + case)
         loops = []
         for node in cases[case]:
-            loops += _wrap_loops(node)
+            loops += _wrap_loops(node, NV)
         anchor(len(loops) == 6, '%s has six wrap loops (found %d)' % (case, len(loops)))
         seen = set()
         for L in loops:
@@ -88,12 +116,12 @@ def rule_wrap(ctx):
                             ini_ = [c_ for c_ in d_.get('inner', []) if c_.get('kind') not in ('FullComment',)]
                             txt_ = render(ini_[-1]).replace(' ', '').replace('(', '') if ini_ else ''
                             if 'fmod' in txt_ and 'OMEGA' in txt_:
-                                offs['>' if txt_.split('fmod', 1)[1].startswith('-') else '<'] = d_['name']
+                                offs['>' if txt_.split('fmod', 1)[1].startswith('-') else '<'] = extents.canon(extents.resolve(d_['name'], NV))
                     anchor(set(offs) == {'>', '<'}, 'the two shear offsets (locals defined with fmod of -+ 3/2 OMEGA boxsize.x t) in reb_boundary_check')
                     off = offs[L['op']]
                     if len(oy) != 1 or oy[0][1] != '+=' or oy[0][2] != off:
                         ctx.report('R15.1', key + ':shear-y', where, 'radial wrap must shift y by %s; found %s' % (off, oy))
-                    if len(ovy) != 1 or ovy[0][1] != sgn or 'OMEGA*boxsize.x' not in ovy[0][2].replace('(', '').replace(')', '') or '3' not in ovy[0][2]:
+                    if len(ovy) != 1 or ovy[0][1] != sgn or not re.search(r'OMEGA\*(r\.)?boxsize\.x', ovy[0][2]) or '3' not in ovy[0][2]:
                         ctx.report('R15.1', key + ':shear-vy', where, 'radial wrap must change vy by %s 3/2 OMEGA boxsize.x; found %s' % (sgn, ovy))
                     if rest:
                         ctx.report('R15.1', key + ':shear-extra', where, 'radial wrap changes %s' % rest)
@@ -120,8 +148,8 @@ def rule_wrap(ctx):
     for cmp_ in walk(loop):
         if cmp_.get('kind') != 'BinaryOperator' or cmp_.get('opcode') not in ('<', '>'):
             continue
-        c = render(cmp_).replace(' ', '')
-        m = re.match(r'^\((?:r\.)?particles\[(\w+)\]\.([xyz])([<>])\(?(-?)\(?(?:r\.)?boxsize\.([xyz])/2(?:\.0?)?\)*$', c)
+        c = _rs(cmp_, NV)
+        m = re.match(r'^(?:r\.)?particles\[(\w+)\]\.([xyz])([<>])(-?)(?:r\.)?boxsize\.([xyz])/2(?:\.0?)?$', c)
         if m and m.group(1) == lv_:
             n += 1
             _, comp, op, neg, bcomp = m.groups()
